@@ -507,6 +507,12 @@ def perturb_representation(model: PyModel, t, v, rng, stats=None, fmt="binary"):
                     if fmt != "binary" and (getattr(model.pkg, "process_tz", None) or "UTC") != "UTC":
                         return v      # (a naive datetime means local time: only in UTC is it the same instant)
                     return _dt.datetime(1970, 1, 1, tzinfo=_dt.timezone.utc if fmt == "binary" else None) + _dt.timedelta(microseconds=ns // 1000)
+                if fmt == "binary":
+                    for unit_, div_ in (("s", 10 ** 9), ("ms", 10 ** 6), ("us", 1000)):
+                        if ns % div_ == 0 and rng.fork("unit").chance(0.7):
+                            if stats is not None:
+                                stats["py_datetime_as_numpy_scalar_with_unit_" + unit_] = stats.get("py_datetime_as_numpy_scalar_with_unit_" + unit_, 0) + 1
+                            return np.datetime64(ns // div_, unit_)
                 return np.datetime64(ns, "ns") if fmt == "binary" else v      # (NumPy scalars: the binary serializers take them, to_json does not)
             if t.name == "time" and hasattr(v, "numpy_value"):
                 ns = int(v.numpy_value.astype("timedelta64[ns]").astype(np.int64))
@@ -515,6 +521,13 @@ def perturb_representation(model: PyModel, t, v, rng, stats=None, fmt="binary"):
                     if stats is not None:
                         stats["py_time_as_datetime.time"] = stats.get("py_time_as_datetime.time", 0) + 1
                     return _dt.time(us // 3600000000, us // 60000000 % 60, us // 1000000 % 60, us % 1000000)
+                if fmt == "binary":
+                    # a NumPy scalar in the coarsest unit that holds the value exactly (what np.timedelta64(5, "s") is)
+                    for unit_, div_ in (("s", 10 ** 9), ("ms", 10 ** 6), ("us", 1000)):
+                        if ns % div_ == 0 and rng.fork("unit").chance(0.7):
+                            if stats is not None:
+                                stats["py_time_as_numpy_scalar_with_unit_" + unit_] = stats.get("py_time_as_numpy_scalar_with_unit_" + unit_, 0) + 1
+                            return np.timedelta64(ns // div_, unit_)
                 return np.timedelta64(ns, "ns") if fmt == "binary" else v
             if t.name == "date" and isinstance(v, _dt.date) and fmt == "binary":
                 return np.datetime64(v.isoformat(), "D")
